@@ -27,6 +27,12 @@ import rsfn      # noqa: E402
 import units     # noqa: E402
 import props as propdefs  # noqa: E402
 
+try:
+    FINGERPRINTS = json.load(open(os.path.join(os.path.dirname(os.path.dirname(os.path.abspath(__file__))),
+                                               'contracts', 'loop_fingerprints.json')))
+except Exception:
+    FINGERPRINTS = {}
+
 REPO = os.environ.get('VERIF_REPO', '/repo')
 CACHE = os.environ.get('VERIF_CACHE') or os.path.join(ROOT, '.cache')
 SAFETY_KINDS = {'overflow', 'unreachable', 'index', 'assert-src', 'std-requires'}
@@ -442,6 +448,7 @@ def run_check(pid, tier, seed, scratch, t0):
     smt_ms = 0
     cmds = []
     fn_times = {}
+    notes = []
     for uname, r in results.items():
         g = r['g']
         contracts = g.contracts
@@ -466,6 +473,19 @@ def run_check(pid, tier, seed, scratch, t0):
             hit = [f for f in all_fail if f['fn'] in lost_fns]
             if hit:
                 undecided.append('anchor-lost: %s' % ', '.join(g.lost_anchors))
+        # a failing function that calls a function without contract which it did not call on the unchanged tree
+        # (contracts/loop_fingerprints.json): the failure means "the new callee needs a contract", not a violation
+        known_calls = FINGERPRINTS.get('calls', {})
+        for f in all_fail:
+            if f.get('unit') != uname:
+                continue
+            new = sorted(set(g.uncontracted_calls.get(f['fn'], [])) - set(known_calls.get(f['fn'], [])))
+            if new:
+                msg = 'needs-contract: %s now calls %s, which has no contract' % (f['fn'], ', '.join(new))
+                if msg not in undecided:
+                    undecided.append(msg)
+        for dl in g.dropped_loops:
+            notes.append('loop contract dropped: ' + dl)
         for u in g.under_contract:
             lab = label_of(u['ctx'], u['fn'])
             if lab in relevant:
@@ -575,6 +595,7 @@ def run_check(pid, tier, seed, scratch, t0):
                              % (len(r['canary']['fired']), len(r['canary']['expected']))) if r['canary'] else 'not run (thorough tier only)'
                          for u, r in results.items()},
             'extra_engines': extra_cov,
+            'contract_adaptation': notes,
         },
         'assumptions': propdefs.assumptions(pid),
         'wall_s': round(wall, 2),
